@@ -1,5 +1,6 @@
 import PncProofs.ArrLemmas
 import PncModel.File
+import PncProofs.C03
 
 /-!
 # C01 — every operation yields a structurally well-formed file: property theorems
@@ -8,7 +9,7 @@ import PncModel.File
 exactly the shape given by the lengths of those dimensions, in order.
 -/
 namespace Props.C01
-open Arr PFile
+open Arr PFile Props.C03
 
 /-- well-formedness of one variable inside a file -/
 def VarWF (f : File) (v : Var) : Prop :=
@@ -526,6 +527,221 @@ theorem renameDim_wf (f f' : File) (old new : String) (h : WF f)
     rw [this]
   rw [hdims, hvars]
 
+/-! ### applyAlongDimensions -/
+
+/-- the shape `applyAlongDimensions` produces for a variable with dimensions `dims` and shape `sh` -/
+def targetShape (fns : List (String × Fn)) : List String → List Nat → List Nat
+  | d :: ds, n :: ns => (match fnOf fns d with | some fn => fnLen fn n | none => n) :: targetShape fns ds ns
+  | _, _ => []
+
+theorem targetShape_length (fns : List (String × Fn)) : ∀ (dims : List String) (sh : List Nat),
+    dims.length = sh.length → (targetShape fns dims sh).length = sh.length
+  | [], [], _ => rfl
+  | d :: ds, n :: ns, h => by simp [targetShape, targetShape_length fns ds ns (by simpa using h)]
+  | [], _ :: _, h => by simp at h
+  | _ :: _, [], h => by simp at h
+
+theorem targetShape_getD (fns : List (String × Fn)) : ∀ (dims : List String) (sh : List Nat) (i : Nat),
+    dims.length = sh.length → i < sh.length →
+    (targetShape fns dims sh).getD i 0 =
+      (match fnOf fns (dims.getD i "") with | some fn => fnLen fn (sh.getD i 0) | none => sh.getD i 0)
+  | d :: ds, n :: ns, 0, _, _ => by simp [targetShape]
+  | d :: ds, n :: ns, i + 1, h, hi => by
+    simp only [targetShape, List.getD_cons_succ]
+    exact targetShape_getD fns ds ns i (by simpa using h) (by simpa using hi)
+  | [], [], _, _, hi => by simp at hi
+  | [], _ :: _, _, h, _ => by simp at h
+  | _ :: _, [], _, h, _ => by simp at h
+
+theorem allPos_set (sh : List Nat) (k v : Nat) (h : AllPos sh) (hv : 0 < v) : AllPos (sh.set k v) := by
+  intro n hn
+  rcases List.mem_or_eq_of_mem_set hn with h1 | h1
+  · exact h n h1
+  · omega
+
+theorem take_drop_step (T s : List Nat) (n v : Nat) (hT : T[n]? = some v) (hs : s[n]? = some v) :
+    T.take n ++ s.drop n = T.take (n + 1) ++ s.drop (n + 1) := by
+  have hn : n < s.length := by
+    by_contra hc
+    rw [List.getElem?_eq_none (by omega)] at hs
+    cases hs
+  rw [List.take_add_one, hT, List.append_assoc, List.drop_eq_getElem_cons hn]
+  have : s[n] = v := by
+    rw [List.getElem?_eq_getElem hn] at hs
+    exact Option.some.inj hs
+  simp [this]
+
+/-- the axes loop of `applyVar`, last axis first: data and shape stay consistent and every processed axis takes
+the function's output length -/
+theorem applyAxes_spec (fns : List (String × Fn)) (dims : List String) (sh0 : List Nat)
+    (hlen : dims.length = sh0.length)
+    (hpos : ∀ i, i < sh0.length → ∀ fn, fnOf fns (dims.getD i "") = some fn → 0 < fnLen fn (sh0.getD i 0)) :
+    ∀ (n : Nat) (a : Arr Cell) (sh : List Nat), n ≤ sh0.length → sh.length = sh0.length →
+      hasShape sh a = true → AllPos sh → sh.take n = sh0.take n →
+      hasShape ((List.range n).reverse.foldl (applyAxis fns dims) (a, sh)).2
+          ((List.range n).reverse.foldl (applyAxis fns dims) (a, sh)).1 = true ∧
+        AllPos ((List.range n).reverse.foldl (applyAxis fns dims) (a, sh)).2 ∧
+        ((List.range n).reverse.foldl (applyAxis fns dims) (a, sh)).2 =
+          (targetShape fns dims sh0).take n ++ sh.drop n := by
+  intro n
+  induction n with
+  | zero =>
+    intro a sh _ _ hs hp _
+    simp only [List.range_zero, List.reverse_nil, List.foldl_nil, List.take_zero, List.drop_zero, List.nil_append]
+    exact ⟨hs, hp, trivial⟩
+  | succ n ih =>
+    intro a sh hn hl hs hp ht
+    have hnl : n < sh0.length := by omega
+    have hnsh : n < sh.length := by omega
+    have hTl := targetShape_length fns dims sh0 hlen
+    have hnT : n < (targetShape fns dims sh0).length := by omega
+    have htn : sh.take n = sh0.take n := by
+      have := congrArg (List.take n) ht
+      simpa [List.take_take, Nat.min_eq_left (Nat.le_succ n)] using this
+    -- position n is still the original length
+    have hshn : sh.getD n 0 = sh0.getD n 0 := by
+      have h1 : (sh.take (n + 1))[n]? = (sh0.take (n + 1))[n]? := by rw [ht]
+      rw [List.getElem?_take_of_lt (by omega), List.getElem?_take_of_lt (by omega)] at h1
+      simp only [List.getD_eq_getElem?_getD, h1]
+    have hTget := targetShape_getD fns dims sh0 n hlen hnl
+    rw [List.getD_eq_getElem?_getD, List.getElem?_eq_getElem hnT, Option.getD_some] at hTget
+    rw [List.range_succ, List.reverse_append, List.reverse_singleton, List.singleton_append, List.foldl_cons]
+    cases hf : fnOf fns (dims.getD n "") with
+    | none =>
+      have hstep : applyAxis fns dims (a, sh) n = (a, sh) := by simp only [applyAxis, hf]
+      rw [hstep]
+      obtain ⟨h1, h2, h3⟩ := ih a sh (by omega) hl hs hp htn
+      refine ⟨h1, h2, ?_⟩
+      rw [h3]
+      apply take_drop_step _ _ n (sh.getD n 0)
+      · rw [List.getElem?_eq_getElem hnT, hTget, hf, hshn]
+      · simp [List.getD_eq_getElem?_getD, List.getElem?_eq_getElem hnsh]
+    | some fn =>
+      have hu := fn_uniform fn
+      have hv : 0 < fnLen fn (sh.getD n 0) := by rw [hshn]; exact hpos n hnl fn hf
+      have hstep : applyAxis fns dims (a, sh) n =
+          (mapFibers fn.apply sh n a, sh.set n (fnLen fn (sh.getD n 0))) := by
+        simp only [applyAxis, hf]
+        congr 2
+        rw [hu]; simp
+      rw [hstep]
+      have hs1 := mapFibers_hasShape fn.apply (fnLen fn) hu sh n a hs hp hnsh
+      have hp1 := allPos_set sh n _ hp hv
+      obtain ⟨h1, h2, h3⟩ := ih (mapFibers fn.apply sh n a) (sh.set n (fnLen fn (sh.getD n 0))) (by omega)
+        (by simp [hl]) hs1 hp1 (by rw [List.take_set_of_le (Nat.le_refl n)]; exact htn)
+      refine ⟨h1, h2, ?_⟩
+      rw [h3]
+      have hd : (sh.set n (fnLen fn (sh.getD n 0))).drop (n + 1) = sh.drop (n + 1) := List.drop_set_of_lt (by omega)
+      rw [← hd]
+      apply take_drop_step _ _ n (fnLen fn (sh.getD n 0))
+      · rw [List.getElem?_eq_getElem hnT, hTget, hf, hshn]
+      · simp [hnsh]
+
+theorem find?_map_len (dims : List Dim) (h : Dim → Nat) (k : String) :
+    (dims.map (fun d => { d with len := h d })).find? (·.name == k) =
+      (dims.find? (·.name == k)).map (fun d => { d with len := h d }) := by
+  induction dims with
+  | nil => rfl
+  | cons d rest ih =>
+    simp only [List.map_cons, List.find?_cons]
+    by_cases hd : (d.name == k) = true
+    · simp [hd]
+    · simp only [hd]
+      exact ih
+
+/-- **C01 (applyAlongDimensions).** For a file without empty dimensions and functions that do not empty an axis
+(`diff` of a length-1 axis does), the result of `applyAlongDimensions` is well-formed: every variable keeps its
+dimension names and its data have exactly the new dimension lengths — any rank, any number of functions. -/
+theorem apply_wf (f g : File) (fns : List (String × Fn)) (h : WF f)
+    (hne : ∀ d ∈ f.dims, 0 < d.len)
+    (hfn : ∀ name fn, fnOf fns name = some fn → 0 < fnLen fn (f.dimLen name))
+    (hs : applyFile f fns = .ok g) : WF g := by
+  unfold applyFile at hs
+  split at hs
+  · cases hs
+  split at hs
+  · cases hs
+  split at hs
+  · cases hs
+  simp only [Except.ok.injEq] at hs
+  -- the new length of a dimension
+  have hnew : ∀ (d : Dim), (match fnOf fns d.name with
+        | some fn => (fn.apply ((List.range d.len).map (fun i => some ((i : Nat) : Rat)))).length
+        | none => d.len) = (match fnOf fns d.name with | some fn => fnLen fn d.len | none => d.len) := by
+    intro d
+    cases hf : fnOf fns d.name with
+    | none => rfl
+    | some fn => simp only; rw [fn_uniform fn]; simp
+  have hdim : ∀ k, g.dim? k = (f.dim? k).map (fun d => { d with len :=
+      (match fnOf fns d.name with | some fn => fnLen fn d.len | none => d.len) }) := by
+    intro k
+    rw [← hs]
+    simp only [File.dim?]
+    rw [find?_map_len]
+    congr 1
+    funext d
+    exact congrArg (fun n => ({ name := d.name, len := n, unlim := d.unlim } : Dim)) (hnew d)
+  have hlenk : ∀ k d, f.dim? k = some d → g.dimLen k = (match fnOf fns k with | some fn => fnLen fn d.len | none => d.len) := by
+    intro k d hd
+    have hname : d.name = k := by
+      have := List.find?_some hd
+      simpa using this
+    simp only [File.dimLen, hdim k, hd, Option.map_some, Option.getD_some, hname]
+  have hvars : g.vars = f.vars.map (applyVar f fns) := by rw [← hs]
+  intro v' hv'
+  rw [hvars] at hv'
+  obtain ⟨v, hv, rfl⟩ := List.mem_map.mp hv'
+  obtain ⟨hvd, hvs⟩ := h v hv
+  have hdims : (applyVar f fns v).dims = v.dims := rfl
+  constructor
+  · intro k hk
+    rw [hdims] at hk
+    obtain ⟨d, hd⟩ := Option.isSome_iff_exists.mp (hvd k hk)
+    rw [hdim k, hd]; rfl
+  · -- the shape
+    have hsh0len : v.dims.length = (f.shapeOf v).length := by simp [File.shapeOf]
+    have hpos0 : AllPos (f.shapeOf v) := by
+      intro n hn
+      simp only [File.shapeOf, List.mem_map] at hn
+      obtain ⟨k, hk, rfl⟩ := hn
+      obtain ⟨d, hd⟩ := Option.isSome_iff_exists.mp (hvd k hk)
+      simp only [File.dimLen, hd, Option.map_some, Option.getD_some]
+      exact hne d (List.mem_of_find?_eq_some hd)
+    have hposf : ∀ i, i < (f.shapeOf v).length → ∀ fn, fnOf fns (v.dims.getD i "") = some fn →
+        0 < fnLen fn ((f.shapeOf v).getD i 0) := by
+      intro i hi fn hf
+      have hi' : i < v.dims.length := by omega
+      have : (f.shapeOf v).getD i 0 = f.dimLen (v.dims.getD i "") := by
+        simp [File.shapeOf, List.getD_eq_getElem?_getD, List.getElem?_eq_getElem hi']
+      rw [this]
+      exact hfn _ fn hf
+    obtain ⟨r1, _, r3⟩ := applyAxes_spec fns v.dims (f.shapeOf v) hsh0len hposf v.dims.length v.data (f.shapeOf v)
+      (by omega) rfl hvs hpos0 rfl
+    have hTl := targetShape_length fns v.dims (f.shapeOf v) hsh0len
+    rw [List.take_of_length_le (by omega), List.drop_of_length_le (by omega), List.append_nil] at r3
+    -- the target shape is the list of new dimension lengths
+    have htarget : targetShape fns v.dims (f.shapeOf v) = g.shapeOf (applyVar f fns v) := by
+      simp only [File.shapeOf, hdims]
+      have : ∀ (ks : List String), (∀ k ∈ ks, (f.dim? k).isSome = true) →
+          targetShape fns ks (ks.map f.dimLen) = ks.map g.dimLen := by
+        intro ks
+        induction ks with
+        | nil => intro _; rfl
+        | cons k rest ih =>
+          intro hk
+          obtain ⟨d, hd⟩ := Option.isSome_iff_exists.mp (hk k (by simp))
+          simp only [List.map_cons, targetShape]
+          rw [ih (fun x hx => hk x (List.mem_cons_of_mem _ hx)), hlenk k d hd]
+          congr 1
+          simp only [File.dimLen, hd, Option.map_some, Option.getD_some]
+      exact this v.dims hvd
+    rw [← htarget, ← r3]
+    unfold applyVar
+    simp only
+    split
+    · exact mapCells_hasShape _ _ _ r1
+    · exact r1
+
 /-- non-vacuity: a two-variable file is well-formed and stays so under mask and insertDimension -/
 example : let f : File := ⟨[⟨"t", 2, true⟩, ⟨"x", 2, false⟩],
       [⟨"A", ["t", "x"], .node [.node [.leaf (some 1), .leaf none], .node [.leaf (some 3), .leaf (some 4)]], [], true, false⟩,
@@ -543,5 +759,19 @@ example : let f : File := ⟨[⟨"t", 2, true⟩, ⟨"x", 2, false⟩],
     renameDimsFile f [("t", "x"), ("x", "t")] = .error "ValueError" ∧
     renameDimsFile f [("t", "z"), ("x", "z")] = .error "ValueError" := by
   refine ⟨⟨_, rfl, by decide⟩, rfl, rfl⟩
+
+/-- non-vacuity of `apply_wf`: the mean over `t` of a (t, x) variable next to a 1-D variable -/
+example : let f : File := ⟨[⟨"t", 2, true⟩, ⟨"x", 2, false⟩],
+      [⟨"A", ["t", "x"], .node [.node [.leaf (some 1), .leaf none], .node [.leaf (some 3), .leaf (some 4)]], [], true, false⟩,
+       ⟨"x", ["x"], .node [.leaf (some 10), .leaf (some 20)], [], false, false⟩], []⟩
+    (∀ d ∈ f.dims, 0 < d.len) ∧ (∀ name fn, fnOf [("t", Fn.mean)] name = some fn → 0 < fnLen fn (f.dimLen name)) ∧
+    (applyFile f [("t", Fn.mean)]).toOption.isSome = true := by
+  refine ⟨by decide, ?_, by decide +kernel⟩
+  intro name fn h
+  simp only [fnOf] at h
+  by_cases hn : name = "t"
+  · subst hn; simp at h; subst h; decide
+  · simp [hn] at h
+    cases h : ([("t", Fn.mean)] : List (String × Fn)).find? (fun x => x.1 == name) <;> simp_all
 
 end Props.C01
